@@ -147,7 +147,19 @@ def build_session(args):
     rng = random.Random(seed)
     session = []
 
+    def intern(x, pool):
+        """equal sub-objects made *the same* object (a caller that assembles a chain from shared tables)"""
+        if isinstance(x, dict):
+            x = {k: intern(v, pool) for k, v in x.items()}
+        elif isinstance(x, list):
+            x = [intern(v, pool) for v in x]
+        else:
+            return x
+        return pool.setdefault(json.dumps(x, sort_keys=True, default=repr), x)
+
     def add_view(chain, info):
+        if rng.random() < 0.3:
+            chain = intern(chain, {})
         names = all_names(chain, set())
         nh = {n: html_of(n) for n in names}
         if len(set(nh.values())) != len(nh):
